@@ -465,6 +465,12 @@ def _segment_cli(i):
         seg = captured[0][0]
         back = read_cna(fout)
         cols = ("chromosome", "start", "end", "gene", "log2", "probes", "weight", "depth")
+        if len(seg) == 0:
+            # no bin survived the filters: the command writes a table without rows (the columns of an empty table are
+            # not something the property speaks about) -- it must read back as a table without rows
+            if len(back) != 0:
+                raise AssertionError("the written .cns of a table without segments does not read back empty")
+            return cna, seg
         if len(back) != len(seg) or any(c not in back for c in cols):
             raise AssertionError("the written .cns does not read back as the table segment computed (shape)")
         for c in cols:
